@@ -37,6 +37,10 @@ const (
 	transportSystemOpenArgs = "transport-system-open-args"
 )
 
+func noopOption(_ interface{}) error {
+	return util.ErrIgnoredOption
+}
+
 type optionDefinition struct {
 	Option string      `json:"option" yaml:"option"`
 	Value  interface{} `json:"value"  yaml:"value"`
@@ -57,9 +61,20 @@ func (o *optionDefinitions) asOptions() []util.Option { //nolint: gocyclo,gocogn
 
 			opts[i] = options.WithPort(intVal)
 		case authBypass:
-			opts[i] = options.WithAuthBypass()
+			// no value (or anything but an explicit false) enables the bypass
+			if boolVal, ok := opt.Value.(bool); ok && !boolVal {
+				opts[i] = noopOption
+			} else {
+				opts[i] = options.WithAuthBypass()
+			}
 		case authStrictKey:
-			opts[i] = options.WithAuthNoStrictKey()
+			// no value (or anything but an explicit true) turns strict key checking off, "true"
+			// means what it says: keep checking
+			if boolVal, ok := opt.Value.(bool); ok && boolVal {
+				opts[i] = noopOption
+			} else {
+				opts[i] = options.WithAuthNoStrictKey()
+			}
 		case promptPattern:
 			strVal, ok := opt.Value.(string)
 			if !ok {
